@@ -461,7 +461,7 @@ func main() {
 				c.freshCheck(p, seed, runs)
 			}
 			// the stingy-source family: tapes that serve at most k bytes per Read call
-			if si == 0 {
+			if si == 0 && !(p.NoQuickStingy && a.Tier != "thorough" && !a.Search) {
 				chunks := []int{[]int{1, 7, 31}[pi%3]}
 				if a.Tier == "thorough" || a.Search {
 					chunks = []int{1, 7, 31}
